@@ -242,9 +242,9 @@ def cmp_c18(case, got):
     if not got["env_ok"]:
         bad.append(("the environment variable set by the spawn hook did not reach the child intact"
                     + (" (--emit-events-to=%s)" % case["emit"] if case.get("emit", "default") != "default" else ""), "env"))
-    if case["cmd"]["kind"] == "cli" and got.get("events_file") is not None and got["events_file"] != case.get("events_file", False):
-        bad.append(("--emit-events-to=%s: WATCHEXEC_EVENTS_FILE %s in the command's environment" %
-                    (case.get("emit"), "is" if got["events_file"] else "is not"), "events_file"))
+    # whether WATCHEXEC_EVENTS_FILE is named in the two file modes (events_file) is in the specification and is
+    # recorded, but it is not judged here: C18 speaks of the variables the hook sets reaching the child, not of
+    # which variables the CLI chooses to set (a renamed variable would be an alarm on a tree where C18 holds)
     return bad
 
 
